@@ -103,7 +103,7 @@ impl Ret {
 
 const EDGE_U64: [u64; 12] = [0, 1, 2, 3, 7, 0xff, 0x100, u32::MAX as u64, i32::MAX as u64, i64::MAX as u64, u64::MAX, 0x8000_0000_0000_0000];
 const EDGE_I32: [i32; 10] = [0, 1, 2, -1, 5, 0xffff, i32::MIN, i32::MAX, 13, -22];
-const STRINGS: [&str; 8] = ["", "a", "héllo wörld", "日本語テキスト", "with\0nul inside", "😀", "0123456789abcdef0123456789abcdef", " trailing "];
+const STRINGS: [&str; 10] = ["", "a", "héllo wörld", "日本語テキスト", "with\0nul inside", "😀", "0123456789abcdef0123456789abcdef", " trailing ", "rec\0\0\0", "\0"];
 
 /// Argument source: integers of the plan step → concrete values. Records the (address, length)
 /// of every buffer handed to / received from the callee, for comparison with what it saw.
@@ -305,10 +305,10 @@ pub fn call_readonly<O: ReadOnly + ?Sized>(rv: &mut Recv<O>, mi: usize, a: &mut 
 
 // Shapes -------------------------------------------------------------------------------------
 
-pub const SHAPES: [Meth; 37] = [
+pub const SHAPES: [Meth; 38] = [
     m("s_slice"), m("s_slice_u64"), m("s_slice_mut"), m("s_str"), m("s_opt"), m("s_opt_ref"), m("s_mixed"), m("s_res"), m("s_into"), m("s_struct"),
     m("s_cb"), m("s_iter"), m("s_ret_str"), m("s_ret_slice"), m("s_ret_mut_slice"), m("s_ret_opt_ref"), m("s_str_to_str"), m("s_vec"), m("s_mut_ref"), m("s_two_slices"), m("s_opt_then_slice"), m("s_two_mut"), m("s_unit_slice"), m("s_ret_unit_slice"), m("s_two_opts"), m("s_two_into"),
-    m("s_unit"), m("s_opt_mut"), m("s_ret_mut"), m("s_ret_opt_mut"), m("s_nz"), m("s_nested"), m("s_raw"), m("s_ctup"), m("s_copt"), m("s_cstr"), m("s_slices"),
+    m("s_unit"), m("s_opt_mut"), m("s_ret_mut"), m("s_ret_opt_mut"), m("s_nz"), m("s_nested"), m("s_raw"), m("s_ctup"), m("s_copt"), m("s_cstr"), m("s_slices"), m("s_copy"),
 ];
 
 /// Source iterator for CIterator arguments: counts how far it was advanced.
@@ -492,6 +492,33 @@ pub fn call_shapes<O: Shapes + ?Sized>(rv: &mut Recv<O>, mi: usize, a: &mut A) -
             a.sent.push((&mut n as *mut u32 as usize, 1));
             let r = o.s_two_mut(&mut v, &mut n);
             Ret::Multi(vec![Ret::U(r as u64), Ret::Bytes(v), Ret::U(n as u64)])
+        }
+        37 => {
+            // input and output: neighbours in one buffer (either order) or separate buffers
+            let o = need_mut!(rv);
+            let mut buf = a.bytes(0);
+            let k = if buf.is_empty() { 0 } else { (a.u(1) as usize) % (buf.len() + 1) };
+            let mut other = a.bytes(2);
+            let r = match a.raw(3).rem_euclid(3) {
+                0 => {
+                    let (src, dst) = buf.split_at_mut(k);
+                    a.sent.push((src.as_ptr() as usize, src.len()));
+                    a.sent.push((dst.as_ptr() as usize, dst.len()));
+                    o.s_copy(src, dst)
+                }
+                1 => {
+                    let (dst, src) = buf.split_at_mut(k);
+                    a.sent.push((src.as_ptr() as usize, src.len()));
+                    a.sent.push((dst.as_ptr() as usize, dst.len()));
+                    o.s_copy(src, dst)
+                }
+                _ => {
+                    a.sent.push((buf.as_ptr() as usize, buf.len()));
+                    a.sent.push((other.as_ptr() as usize, other.len()));
+                    o.s_copy(&buf, &mut other)
+                }
+            };
+            Ret::Multi(vec![Ret::U(r as u64), Ret::Bytes(buf), Ret::Bytes(other)])
         }
         18 => {
             let o = need_mut!(rv);
